@@ -358,6 +358,9 @@ def setTni (d : State) (k : Nat) (t : Tni) : State :=
 * `tsend <k> <sendto|parent|children|parallel|multicast|broadcast> <dests|->` — the entry point on
   instance k (`sendto -`: nil destination); answer `<ok|err:k> delivered=<d>`, configuration
   messages counted
+* `stall <p>` — a connection to the survivor's address that stays silent (no TLS hello, no identity)
+* `inbound <q> <n>` — healthy peer q sends n messages to the survivor (first contact: it connects);
+  answer `ok dispatched=<n> conns=<connections with q>`
 * `herr <7 bits>` — `handleError` on an error with these features (`closedText pipeText cancelText
   isEOF eofText netErr timeout`); answer: the class
 * `rawconn <p> <id|noid|halfid|wrongtype>` — peer p (no router: a socket driven by the harness) opens
@@ -497,6 +500,22 @@ def step (d : State) (toks : List String) : State × String :=
         (d', s!"dispatched={o.dispatched.length} told={told} table={rawTable d' p}")
       | none => (d, "bad-op")
     | _, _, _ => (d, "bad-op")
+  | ["stall", p] =>
+    -- somebody connects to the survivor's address and says nothing (a peer that dies right after its
+    -- TCP connect: no TLS hello, no identity).  Nothing of it ever reaches the table; every such
+    -- set-up is handled on its own (`Router.Start`'s callback runs per connection)
+    match p.toNat? with
+    | some p => if p = 0 then (d, "bad-op") else (d, "ok")
+    | none => (d, "bad-op")
+  | ["inbound", q, n] =>
+    -- healthy peer q (a running router) sends n messages to the survivor; if it has no connection
+    -- with the survivor it opens one: `accept`
+    match q.toNat?, n.toNat? with
+    | some q, some n =>
+      if q = 0 ∨ n = 0 ∨ n > 8 ∨ !s.up.contains q ∨ d.raw.any (·.1 == q) then (d, "bad-op") else
+      let s1 := if s.conns.any (fun c => c.peer == q && c.alive) then s else (C09.step s (.accept q)).1
+      ({ d with core := s1 }, s!"ok dispatched={n} conns={(s1.conns.filter (·.peer == q)).length}")
+    | _, _ => (d, "bad-op")
   | ["pause"] => (d, "ok")
   | ["kill", p] =>
     match p.toNat? with
